@@ -49,7 +49,7 @@ World* make_world(World& w, int mA, int mB, bool natA = false)
 	return &w;
 }
 
-Res run_tcp(int mA, int mB, int scode, int layout, int mode /* 0 two client nodes, 1 one multi-homed client node, 2 connector A behind a NAT */)
+Res run_tcp(int mA, int mB, int scode, int layout, int mode /* 0 two client nodes, 1 one multi-homed client node, 2 connector A behind a NAT, 3 both sockets of a connection are move-constructed once established */)
 {
 	bool const multihomed = mode == 1;
 	Res R; World w; make_world(w, mA, mB, mode == 2);
@@ -85,7 +85,13 @@ Res run_tcp(int mA, int mB, int scode, int layout, int mode /* 0 two client node
 	};
 	for (int k = 0; k < 2; ++k) {
 		c[k].srv.reset(new ip::tcp::socket(nS));
-		(k == 0 ? acc0 : acc1).async_accept(*c[k].srv, [&, k](error_code const& ec) {
+		// mode 3: the accepted socket is handed over by value (the acceptor move-constructs it)
+		if (mode == 3) (k == 0 ? acc0 : acc1).async_accept([&, k](error_code const& ec, ip::tcp::socket s) {
+			if (ec) return;
+			c[k].srv.reset(new ip::tcp::socket(std::move(s)));
+			c[k].up_s = true; writer(*c[k].srv, c[k].ws); reader(*c[k].srv, c[k].rs, c[k].bs);
+		});
+		else (k == 0 ? acc0 : acc1).async_accept(*c[k].srv, [&, k](error_code const& ec) {
 			if (ec) return;
 			c[k].up_s = true; writer(*c[k].srv, c[k].ws); reader(*c[k].srv, c[k].rs, c[k].bs);
 		});
@@ -96,6 +102,8 @@ Res run_tcp(int mA, int mB, int scode, int layout, int mode /* 0 two client node
 		if (multihomed) { c[k].cli->open(ip::tcp::v4()); c[k].cli->bind(ip::tcp::endpoint(addr(k == 0 ? "10.0.0.1" : "10.0.0.2"), 0)); }
 		c[k].cli->async_connect(ip::tcp::endpoint(addr("10.0.1.1"), (unsigned short)(6000 + k)), [&, k](error_code const& ec) {
 			if (ec) { fail("connect: " + ecs(ec)); return; }
+			// mode 3: the connected socket (no operation outstanding) is move-constructed into a new object before it is used
+			if (mode == 3 && layout != 2) { auto* moved = new ip::tcp::socket(std::move(*c[k].cli)); c[k].cli.reset(moved); }
 			c[k].up_c = true; if (layout != 2) writer(*c[k].cli, c[k].wc); reader(*c[k].cli, c[k].rc, c[k].bc);
 		});
 		// layout 2: the connector writes right after async_connect(), before the handshake is over; the socket parks the write and resumes it itself
@@ -192,13 +200,13 @@ struct MtuEngine : Engine
 	uint64_t units(Args const&) override
 	{
 		all.clear();
-		for (int mh = 0; mh < 3; ++mh) for (int a = 0; a < 4; ++a) for (int b = 0; b < 4; ++b) for (int s = 0; s < 7; ++s) for (int l = 0; l < 3; ++l) all.push_back(U{ 0, MTUS[a], MTUS[b], s, l, mh });
+		for (int mh = 0; mh < 4; ++mh) for (int a = 0; a < 4; ++a) for (int b = 0; b < 4; ++b) for (int s = 0; s < 7; ++s) for (int l = 0; l < 3; ++l) all.push_back(U{ 0, MTUS[a], MTUS[b], s, l, mh });
 		for (int mh = 0; mh < 2; ++mh) for (int a = 0; a < 4; ++a) for (int s = 0; s < 7; ++s) for (int df = 0; df < 4; ++df) for (int dir = 0; dir < 2; ++dir) all.push_back(U{ 1, MTUS[a], s, df, dir, mh });
 		for (int a = 0; a < 4; ++a) for (int s = 0; s < 7; ++s) for (int df = 0; df < 3; ++df) for (int dir = 0; dir < 2; ++dir) { U u{ 1, MTUS[a], s, df, dir, 0 }; u.busy = 1; all.push_back(u); }
 		return all.size();
 	}
 	Res exec(U const& u) { return u.kind == 0 ? run_tcp(u.a, u.b, u.c, u.d, u.mh) : run_udp(u.a, u.b, u.c, u.d, u.mh != 0, u.busy != 0); }
-	std::string ustr(U const& u) { return (u.kind == 0 ? fmt("tcp mtu(A,S)=%d mtu(B,S)=%d size-code %d layout %d", u.a, u.b, u.c, u.d) : fmt("udp mtu=%d size-code %d df=%d dir=%d", u.a, u.b, u.c, u.d)) + (u.mh == 1 ? " [both client addresses on one multi-homed node]" : u.mh == 2 ? " [connector A behind a NAT]" : "") + (u.busy ? " [send buffer full]" : ""); }
+	std::string ustr(U const& u) { return (u.kind == 0 ? fmt("tcp mtu(A,S)=%d mtu(B,S)=%d size-code %d layout %d", u.a, u.b, u.c, u.d) : fmt("udp mtu=%d size-code %d df=%d dir=%d", u.a, u.b, u.c, u.d)) + (u.mh == 1 ? " [both client addresses on one multi-homed node]" : u.mh == 2 ? " [connector A behind a NAT]" : u.mh == 3 ? " [both sockets move-constructed once established]" : "") + (u.busy ? " [send buffer full]" : ""); }
 	void run_unit(uint64_t i, Ctx& ctx) override
 	{
 		if (!ctx.next_case()) return;
